@@ -327,7 +327,7 @@ func buildCases(r *eng.Run) []caseD {
 	big := []wl{{8, []int{0, 1, 2, 7, 8, 9, 40, 41, 64, 65, 512, 513}}, {174, []int{0, 1, 173, 174, 175, 174 * 5, 174*5 + 1}}}
 	if r.Thorough() {
 		big[1].leaves = append(big[1].leaves, 174*174, 174*174+1)
-		big = append(big, wl{16, []int{15, 16, 17, 80, 81, 256, 257, 4096, 4097}}, wl{1024, []int{0, 1, 1023, 1024, 1025, 5 * 1024, 5*1024 + 1, 1024*1024 + 1}})
+		big = append(big, wl{16, []int{15, 16, 17, 80, 81, 256, 257, 4096, 4097}}, wl{1024, []int{0, 1, 1023, 1024, 1025, 5 * 1024, 5*1024 + 1}})
 	} else {
 		big = append(big, wl{1024, []int{1, 1025}})
 	}
@@ -347,6 +347,14 @@ func buildCases(r *eng.Run) []caseD {
 		add(174, "", n, fewB, fewMeta)
 	}
 	add(174, "buzhash", 1<<20+1, fewB, fewMeta)
+	if r.Thorough() {
+		// depth-3 balanced tree at width 1024 (1024^2+1 leaves): one configuration
+		// per layout only - reading it back costs minutes (the DagReader copies
+		// the 1024 links of a node for every child it visits).
+		for _, lay := range layouts {
+			cs = append(cs, caseD{lay, 1024, "size-1", 1024*1024 + 1, true, "nil", 0o644, "1.5s"})
+		}
+	}
 	return cs
 }
 
